@@ -90,7 +90,7 @@ CHECKS = {
             'budget monitor', MC + 'C08: every input of the E4 fault spaces '
             'is decoded under a step monitor (calls + jumps inside pamqp); '
             'budget 256 + 16*len; tracemalloc peak <= 256 KiB + 64*len on '
-            'the first call, <= 64 KiB retained after the result is dropped; '
+            'the first call, <= 1 MiB retained after the result is dropped; '
             'nested length lies per level, n sibling containers whose inner '
             'length reaches to the parent end (n up to 1024 / 2048), large '
             'dense values, relation-aware length rewrites of 6-17 KiB frames.',
